@@ -32,6 +32,15 @@ CHECKS = {
         "accepted as str.upper() or str.title() of the first code point; bidi marks only at title/remainder edges.",
         "DESIGN.md section 2 C12",
     ),
+    "C13": (
+        "exploration",
+        "Hypothesis-generated metabook JSON trees x spellings x request pairs; round-trip, fixed-point, no-sharing and "
+        "collection-id (in)equality oracles (metamorphic: equal-by-value spellings vs single-field mutations)",
+        "Thousands of generated metabooks per run are loaded, dumped, reloaded and compared on plain trees; ids from nserve and "
+        "serve are compared across re-spellings (must be equal) and single-field mutations (must differ). Sampled, not exhaustive.",
+        "null and absent attributes are the same metabook; titles inside a metabook are distinct; stdlib json encoder produces the spellings.",
+        "DESIGN.md section 2 C13",
+    ),
 }
 
 NOT_YET = {}
